@@ -1,4 +1,4 @@
 SPECIFICATION Spec
-CONSTANT OracleBound = 20000
+CONSTANT OracleBound = 2000000000
 POSTCONDITION Accepted
 CHECK_DEADLOCK FALSE
